@@ -262,7 +262,7 @@ def shape_dispatch(ctx, rule):
            nontrivial=False)
 
 
-def addressed_selection(ctx):
+def addressed_selection(ctx, rule='C07.R4', only=None):
     """In bake, an operation of a step whose destination / source may be a slice must act on that slice re-bound to
     the current plate (a deep copy of the declared slice), not on the whole current plate."""
     from .c09 import bake_branches, _inside, _is_operation
@@ -274,6 +274,8 @@ def addressed_selection(ctx):
     steps = {'remove': 'Recipe.remove', 'fill_to': 'Recipe.fill_to', 'transfer': 'Recipe.transfer'}
     n = 0
     for op, q in steps.items():
+        if only is not None and op not in only:
+            continue
         body, node = branches[op]
         mfi = model.func(q)
         may_slice = [p for p in mfi.param_names() if 'PlateSlicer' in (mfi.annotation(p) or '')]
@@ -286,6 +288,7 @@ def addressed_selection(ctx):
             if isinstance(c.func, ast.Attribute) and not (isinstance(raw.func.value, ast.Name) and raw.func.value.id in model.classes):
                 operands.insert(0, c.func.value)
             plate_side = []
+            stale_item = []
             for a in operands:
                 srcs = list(deep_walk(a))
                 from_results = any(isinstance(x, ast.Subscript) and path_from_param(x.value) == ('self', ['results']) for x in srcs) or \
@@ -295,17 +298,30 @@ def addressed_selection(ctx):
                 if not from_results:
                     continue
                 keeps_selection = any(isinstance(x, ast.Call) and getattr(x.func, 'id', '') == 'deepcopy' for x in srcs)
+                # re-slicing the current plate: with the resolved selection (.slices) it addresses the same wells; the
+                # original index expression (.item) is the parent's for a slice of a slice
+                for x in srcs:
+                    if isinstance(x, ast.Subscript) and isinstance(strip_refs(x.value), ast.Subscript) and \
+                            path_from_param(strip_refs(x.value).value) == ('self', ['results']):
+                        sel = strip_refs(x.slice)
+                        if isinstance(sel, ast.Attribute) and sel.attr == 'slices':
+                            keeps_selection = True
+                        elif isinstance(sel, ast.Attribute) and sel.attr == 'item':
+                            stale_item.append(show(a, 30))
                 plate_side.append((a, keeps_selection))
             if not plate_side:
                 continue
             n += 1
             bad = [show(a, 30) for a, k in plate_side if not k]
-            ctx.ob('C07.R4', bake, s.lineno, f"`{op}` branch: `{unparse(raw, 50)}` acts on the addressed selection", not bad,
-                   fact=(f"operand(s) {bad} are the whole current object even when the step addressed a slice" if bad else
+            ctx.ob(rule, bake, s.lineno, f"`{op}` branch: `{unparse(raw, 50)}` acts on the addressed selection", not bad,
+                   fact=(f"operand(s) {stale_item} re-slice the current plate with the index expression the slice was first "
+                         f"made from: for a slice of a slice that is the parent's region" if stale_item else
+                         f"operand(s) {bad} are the whole current object even when the step addressed a slice" if bad else
                          'every plate-side operand is the declared slice (copied) re-bound to the current plate, or the '
                          'whole object when the step addressed it'),
                    why='a step that addresses part of a plate is applied to every well', key=f"whole plate instead of selection in {op}")
-    floor(ctx, 'operations on possibly-sliced operands in bake', n, 3)
+    if only is None:
+        floor(ctx, 'operations on possibly-sliced operands in bake', n, 3)
 
 
 def run(ctx):
@@ -335,6 +351,13 @@ def run(ctx):
     # a slice of a (stepped) slice addresses the documented wells
     from .c13 import subslice_composition
     subslice_composition(ctx, 'C07.R1')
+    # two slices are rebound to one plate copy only if they address the very same plate object: otherwise the wells
+    # of one plate are read from (and written to) a copy of the other
+    c01.shared_plate_copy(ctx, 'C07.R1', identity_only=True)
+    # the vectorisers call the per-well function once per addressed well (a second call repeats its effect on the
+    # shared side of a one-to-many transfer)
+    from .c02 import vectorize_once
+    vectorize_once(ctx, 'C07.R1')
     # R2 forwarding
     forwarding(ctx, 'C07.R2')
     for name in ('get_volumes', 'get_substances', 'get_moles'):
